@@ -100,7 +100,7 @@ m = {
    "kind_free_text": "libFuzzer targets with the oracle inside the target; used by the thorough tier only"}
  ],
  "checks": checks,
- "notes": "Exit codes: 0 held, 1 violation (VIOLATION line + replay file), 2 inconclusive (build failure, unconfirmed watchdog trip). Known findings: /verif/known_findings.json (all 'fixed', none open). Sensitivity results: /verif/sensitivity, seeded changes: /verif/seeded.",
+ "notes": "Exit codes: 0 held, 1 violation (VIOLATION line + replay file), 2 inconclusive (build failure, oracle self-test failure, unconfirmed watchdog trip, or - INFRA line - a case that does not finish within 120 s in a property for which a hang is not a violation). Known findings: /verif/known_findings.json (13 given-tree defects, all 'fixed' by fix: commits in /repo, none open). Sensitivity: /verif/sensitivity (hand-picked and automatic mutants), seeded changes: /verif/seeded, property-preserving changes that must stay silent: /verif/benign; results in DESIGN.md section 12.",
  "not_applicable": []
 }
 json.dump(m, open('/verif/MANIFEST.json', 'w'), indent=1)
